@@ -1,5 +1,6 @@
 import SynapModel.Proto
 import SynapModel.Train
+import SynapModel.TrainMetrics
 /-! driver commands for train.py (C20) -/
 namespace Synap.Drv.Train
 open Synap.Proto Synap.Train
@@ -42,5 +43,136 @@ def run (toks : List String) : String :=
     | some r => toString (argmax r)
     | none => "bad-op"
   | _ => "bad-op"
+
+/-! ## values: the Evaluator state machine and the history of `fit` (`train ev …`, `train hist …`)
+
+Rows are separated by `;`, entries by `,`, `_` is "no rows".  A rational travels as `num:den`.
+Metric values are printed as `c/t` (accuracy: the two counts, never reduced; `0/0` is NumPy's nan),
+`q<num>/<den>` (exact rational, reduced), `cb<int>` / `cbi<int>` (callback value, float / not a float). -/
+
+structure St where
+  cfg : Option EvCfg := none
+  st : EvState := EvState.empty
+
+def parseMode? : String → Option Mode
+  | "binary" => some .binary
+  | "multi-class" => some .multiClass
+  | "categorical" => some .categorical
+  | _ => none
+
+def parseRows? (s : String) : Option (List (List Int)) :=
+  if s = "_" then some [] else (s.splitOn ";").mapM parseIntList?
+
+def parseSamples? (labels scores : String) : Option (List Sample) :=
+  match parseRows? labels, parseRows? scores with
+  | some ls, some ss => if ls.length = ss.length then some (List.zipWith (fun l s => ⟨l, s⟩) ls ss) else none
+  | _, _ => none
+
+def parseRat? (s : String) : Option Rat :=
+  match s.splitOn ":" with
+  | [n, d] => match parseInt? n, parseNat? d with
+    | some n, some d => if d = 0 then none else some (mkRat n d)
+    | _, _ => none
+  | _ => none
+
+/-- the callbacks the harness installs: `name:kind,…` with kinds
+    `len` (number of samples), `wsum` (Σ 3·y_true + y_pred), `dis` (number of disagreements),
+    `ilen` (number of samples, returned as a Python `int`) -/
+def cbValue (kind : String) (yt yp : List Int) : Option MVal :=
+  match kind with
+  | "len" => some (.cb yt.length true)
+  | "wsum" => some (.cb (List.zipWith (fun a b => 3 * a + b) yt yp).sum true)
+  | "dis" => some (.cb ((List.zipWith (fun a b => if a = b then (0 : Int) else 1) yt yp).sum) true)
+  | "ilen" => some (.cb yt.length false)
+  | _ => none
+
+def parseCb? (s : String) : Option (Option Callback) :=
+  if s = "-" then some none else
+  let parts := (s.splitOn ",").map (fun p => p.splitOn ":")
+  if parts.all (fun p => match p with | [_, k] => (cbValue k [] []).isSome | _ => false) then
+    some (some (fun yt yp => parts.filterMap (fun p => match p with
+      | [n, k] => (cbValue k yt yp).map (fun v => (n, v))
+      | _ => none)))
+  else none
+
+def showVal : MVal → String
+  | .frac c t => s!"{c}/{t}"
+  | .num q => s!"q{q.num}/{q.den}"
+  | .cb v true => s!"cb{v}"
+  | .cb v false => s!"cbi{v}"
+
+def showMetrics (ms : List Metric) : String :=
+  if ms.isEmpty then "_" else ",".intercalate (ms.map (fun (k, v) => s!"{k}={showVal v}"))
+
+def showHist (h : Hist) : String :=
+  if h.isEmpty then "_" else ",".intercalate (h.map (fun (k, vs) => s!"{k}={"|".intercalate (vs.map showVal)}"))
+
+def parseCfg? (mode scale acc ecb scb : String) : Option (Option EvCfg) :=
+  if mode = "-" then some none else
+  match parseMode? mode, parseNat? scale, parseBool? acc, parseCb? ecb, parseCb? scb with
+  | some m, some sc, some a, some e, some s => some (some { accuracy := a, mode := m, scale := sc, epochCb := e, stepCb := s })
+  | _, _, _, _, _ => none
+
+def parseBatch? (s : String) : Option LBatch :=
+  match s.splitOn "@" with
+  | [l, labels, scores] => match parseRat? l, parseSamples? labels scores with
+    | some l, some ss => some ⟨l, ss⟩
+    | _, _ => none
+  | _ => none
+
+def parseBatches? (s : String) : Option (List LBatch) :=
+  if s = "" then some [] else (s.splitOn "+").mapM parseBatch?
+
+def parseEpoch? (s : String) : Option EpochData :=
+  match s.splitOn "|" with
+  | [t, v] => match parseBatches? t, parseBatches? v with
+    | some t, some v => some ⟨t, v⟩
+    | _, _ => none
+  | _ => none
+
+def runS (w : St) (toks : List String) : St × String :=
+  match toks with
+  -- ev new <mode> <scale> <accuracy> <epoch callback|-> <step callback|->
+  | ["ev", "new", mode, scale, acc, ecb, scb] =>
+    match parseCfg? mode scale acc ecb scb with
+    | some (some cfg) => ({ cfg := some cfg, st := EvState.empty }, "ok")
+    | _ => (w, "bad-op")
+  -- ev step <prefix|-> <label rows> <score rows>
+  | ["ev", "step", pre, labels, scores] =>
+    match w.cfg, parseSamples? labels scores with
+    | some cfg, some b =>
+      match evStep cfg w.st (if pre = "-" then none else some pre) b with
+      | none => (w, "rejected")
+      | some (st, ms) => ({ w with st := st }, s!"metrics={showMetrics ms} n={st.yTrue.length}")
+    | _, _ => (w, "bad-op")
+  -- ev compute <prefix|->
+  | ["ev", "compute", pre] =>
+    match w.cfg with
+    | some cfg =>
+      let (st, ms) := evCompute cfg w.st (if pre = "-" then none else some pre)
+      ({ w with st := st }, s!"metrics={showMetrics ms} n={st.yTrue.length}")
+    | none => (w, "bad-op")
+  | ["ev", "reset"] => ({ w with st := evReset w.st }, "ok")
+  | ["ev", "state"] => (w, s!"ytrue={showIntList w.st.yTrue} ypred={showIntList w.st.yPred}")
+  -- hist <mode|-> <scale> <accuracy> <epoch cb|-> <step cb|-> <hasVal> <y_true found> <y_pred found> <epoch>*
+  --   epoch = <batch>+<batch>…|<batch>+… (training | validation), batch = <num:den>@<label rows>@<score rows>
+  | "hist" :: mode :: scale :: acc :: ecb :: scb :: hv :: yt0 :: yp0 :: eps =>
+    match parseCfg? mode scale acc ecb scb, parseBool? hv, parseIntList? yt0, parseIntList? yp0, eps.mapM parseEpoch? with
+    | some ev, some hv, some yt0, some yp0, some ds =>
+      match fitHist ev hv ⟨yt0, yp0⟩ ds with
+      | none => (w, "rejected")
+      | some (st, h) => (w, s!"hist={showHist h} n={st.yTrue.length}")
+    | _, _, _, _, _ => (w, "bad-op")
+  -- testret <batch>+<batch>… | _ (no batches), batch = <label rows>@<score rows>
+  | ["testret", bs] =>
+    match (if bs = "_" then some [] else (bs.splitOn "+").mapM (fun b => match b.splitOn "@" with
+        | [l, s] => parseSamples? l s
+        | _ => none)) with
+    | some batches =>
+      let (yp, yt) := testReturn batches
+      let showRows := fun (rs : List (List Int)) => if rs.isEmpty then "_" else ";".intercalate (rs.map showIntList)
+      (w, s!"n={yp.length} pred={showRows yp} true={showRows yt}")
+    | none => (w, "bad-op")
+  | _ => (w, run toks)
 
 end Synap.Drv.Train
